@@ -298,6 +298,7 @@ class Outcomes:
     self.lines = {}           # key -> (json text, n events, non-trivial)
     self.owners = collections.defaultdict(list)   # key -> [(item id, pred)]
     self.executed = set()     # keys of scripts SQLite executed
+    self.executed_by = collections.Counter()   # key -> executed scripts
     self.n_executed = 0
     self.sqlite_errors = []
     self.evaluations = 0
@@ -345,6 +346,7 @@ class Outcomes:
           self.owners[key].append((res['id'], p))
           if rec['exec'] == 'ok':
             self.executed.add(key)
+            self.executed_by[key] += 1
             self.n_executed += 1
           elif rec['exec'] == 'error':
             self.sqlite_errors.append({'id': res['id'], 'pred': p,
@@ -366,9 +368,7 @@ class Outcomes:
         e = items_by_id[iid]['engine']
         self.per[e]['accepted' if v['ok'] else 'rejected'] += 1
       if v['ok']:
-        if key in self.executed:
-          accepted_exec += sum(
-              1 for iid, _ in self.owners[key] if iid.endswith('/sqlite'))
+        accepted_exec += self.executed_by[key]
         continue
       iid, p = self.owners[key][0]
       it = items_by_id[iid]
